@@ -122,7 +122,12 @@ class Termizer:
         if k == "Unary":
             if n["op"] == "*":
                 return self.term(n["e"])
-            return ("un", n["op"], self.term(n["e"]))
+            inner_ = self.term(n["e"])
+            if n["op"] == "!" and inner_[0] == "op" and inner_[1] == "<<" and _is_allones(inner_[2]):
+                # !(MAX << k) is the mask of the low k bits, (1 << k) - 1, for every k below the width
+                one = ("def", "common_traits::Number::ONE") if (inner_[2][0] == "def" and "Number" in inner_[2][1]) else ("int", 1)
+                return mk_op("-", mk_op("<<", one, inner_[3]), one)
+            return ("un", n["op"], inner_)
         if k == "Cast":
             t = F.ty(n)
             inner = self.term(n["e"])
@@ -1769,3 +1774,33 @@ def xor_operands(t):
     if t[0] == "op" and t[1] == "^":
         return xor_operands(t[2]) + xor_operands(t[3])
     return [t]
+
+
+def const_evalf(F, b):
+    """-> f(expr node) = the integer value of a constant expression (literals, named constants of the crate, shifts and
+    arithmetic on them), or None"""
+    def ev(t, depth=0):
+        if t[0] == "int":
+            return t[1]
+        if t[0] == "def" and depth < 4:
+            cands = [x for x in F.bodies if x.dk in ("Const", "AssocConst") and strip_generics(x.path) == t[1]]
+            if len(cands) == 1:
+                return ev(Termizer(F, cands[0]).term(cands[0].body), depth + 1)
+            return None
+        if t[0] == "op" and len(t) == 4:
+            a, c = ev(t[2], depth), ev(t[3], depth)
+            if a is None or c is None:
+                return None
+            try:
+                return {"+": a + c, "-": a - c, "*": a * c, "<<": a << c if 0 <= c < 128 else None, ">>": a >> c if 0 <= c < 128 else None,
+                        "/": a // c if c else None, "%": a % c if c else None, "&": a & c, "|": a | c, "^": a ^ c}.get(t[1])
+            except Exception:
+                return None
+        return None
+
+    def f(e):
+        try:
+            return ev(Termizer(F, b).term(e))
+        except Exception:
+            return None
+    return f
